@@ -93,6 +93,11 @@ def check_pixel(project: Project, rep, weight, kernel, sigma, skew, label):
         rep.discharged("PI-PIXEL", fi, fi.node,
                        f"{tag}: pixel (i,j) ≡ Σ weight(μ)·[K(B_i+1,P_j+1)−K(B_i,P_j+1)−K(B_i+1,P_j)+K(B_i,P_j)], "
                        f"μ = (b, {'d−b' if skew else 'd'})", derived=sym.show(r.elem)[:240])
+    elif worst[0] is False and not I.clean_before():
+        rep.unmodelled("PI-PIXEL", fi, fi.node,
+                       f"{tag}: the derived pixel differs from the specification, but the run was not exact ("
+                       + ", ".join(sorted({str(u.get('tag')) for u in I.unmodelled} | {str(l.get('why'))[:50] for l in I.lossy}))[:160]
+                       + "): no verdict")
     elif worst[0] is False:
         rep.refuted("PI-PIXEL", fi, fi.node,
                     f"{tag}: a pixel is not Σ weight × kernel mass of its rectangle (inclusion–exclusion over its four corners "
